@@ -66,7 +66,10 @@ def fixed_targets():
     """The deterministic part of the pool: one representative per input class of the property text."""
     T = []
     T.append(ll(0, 45, 20, 60, 10, 8, "mid_lat"))
-    T.append(ll(10, 80, 20, 85, 20, 10, "high_lat"))                       # the design-round witness
+    T.append(dict(ll(10, 80, 20, 85, 20, 10, "high_lat"), force={"radius": 50000.0, "points": [(9.0, 84.75)]}))   # design-round witness
+    # the two witnesses of Theorem C03_snapshot_reduce_refuted (2 x 2 grid, pixel centres 12.5/17.5E, 83.75/81.25N)
+    T.append(dict(ll(10, 80, 20, 85, 2, 2, "high_lat"), force={"radius": 50000.0, "points": [(11.0, 83.75)]}))
+    T.append(dict(ll(10, 80, 20, 85, 2, 2, "high_lat"), force={"radius": 2500000.0, "points": [(12.5, 58.7)]}))
     T.append(ll(-150, -86, -120, -80, 10, 6, "high_lat"))
     T.append(ll(100, 60, 130, 75, 12, 10, "off_meridian"))
     T.append(ll(-2.5, 40, 2.5, 45, 5, 6, "lon_zero"))                      # a pixel column exactly on lon 0.0
@@ -276,22 +279,24 @@ def configs_for(ctx, rows, mp_ok, small):
 def gen_cases(ctx, mp_ok):
     r = ctx.rng
     targets = fixed_targets()
-    n_rand = ctx.n(16, 260)
+    n_rand = ctx.n(16, 150)
     targets += [random_target(r) for _ in range(n_rand)]
     cases = []
     for ti, tgt in enumerate(targets):
         lon, lat, _, _ = area_lonlats(tgt)
         ps = pixel_scale(lon, lat)
-        if ti == 1:
-            radius = 50000.0
+        force = tgt.pop("force", None)
+        if force:
+            radius = force["radius"]
         else:
             radius = float(round(ps * r.choice([0.7, 1.3, 2.2, 4.0]) if r.random() < 0.8 else r.choice([3.0e5, 1.0e6, 1.6e6, 2.5e6])))
         radius = max(radius, 1000.0)
         n = r.randint(20, 120) if ctx.tier == "quick" else r.randint(20, 400)
         malformed = (ti % 7 == 3)
         slon, slat = make_source_points(r, tgt, radius, n, malformed)
-        if ti == 1:
-            slon[0], slat[0] = 9.0, 84.75
+        if force:
+            for j, (a, b) in enumerate(force["points"]):
+                slon[j], slat[j] = a, b
         shape = [n]
         if n % 4 == 0 and ti % 2 == 0:
             shape = [n // 4, 4]
@@ -306,7 +311,7 @@ def gen_cases(ctx, mp_ok):
         k = r.choice([2, 3, 4, 5])
         rows = t_out["h"] if t_out["kind"] == "area" else shape[0]
         nsrc = n if s_out["kind"] == "swath" else tgt["w"] * tgt["h"]
-        small = (ti % 3 == 0) and ctx.thorough
+        small = (ti % 4 == 0) and ctx.thorough
         case = {"id": len(cases), "source": encode_geo(s_out), "target": encode_geo(t_out), "radius": radius, "k": k,
                 "sigma": radius / 2.0, "datasets": make_datasets(r, nsrc, ti), "configs": configs_for(ctx, rows, mp_ok, small),
                 "tag": tgt["tag"], "mode": mode, "malformed": malformed}
@@ -607,6 +612,68 @@ def seg_case_texts(case, obs):
 COMPONENT = {1: "lat_window", 2: "lon_window", 3: "lat_and_lon_window", 0: "not_rejected_by_model"}
 
 
+def wrapped_deltas(sides):
+    """cumulative longitude of the boundary relative to its first point, without the jumps at the date line"""
+    cum, acc = [0.0], 0.0
+    for side in sides:
+        prev = None
+        for lon in side:
+            if prev is not None:
+                d = lon - prev
+                if abs(d) > 180:
+                    d = (abs(d) - 360) * (1 if d > 0 else -1)
+                acc += d
+                cum.append(acc)
+            prev = lon
+    return cum
+
+
+def diagnose_snapshot(red, radius, lon, lat, code):
+    """Why the SNAPSHOT's window rejects a point that has a counterpart within the radius (deterministic, from the
+    boundary itself): returns the attribution key suffix.
+      lon_window.<band>            : side 4 / side 2 do hold the western / eastern extremes, the buffer r/(sin(max|lat|)R) is
+                                     too narrow; band = latitude band of the boundary (max |lat|)
+      side_assumption.<how>        : even with the correct spherical buffer the window built from side4.min()/side2.max()
+                                     and the `side2.min() > side4.max()` date-line test excludes the point
+      lat_window.large_radius      : latitude buffer r/R (arc) although neighbours are selected by chord length
+    """
+    lo = [[float.fromhex(x) for x in s] for s in red["side_lons"]]
+    la = [[float.fromhex(x) for x in s] for s in red["side_lats"]]
+    all_lat = [x for s in la for x in s]
+    maxabs = max(abs(x) for x in all_lat)
+    ang = 2.0 * math.asin(min(radius / (2 * R_EARTH), 1.0))
+    keys = []
+    if code in (1, 3):
+        lat_ok = min(all_lat) - math.degrees(ang) <= lat <= max(all_lat) + math.degrees(ang)
+        if lat_ok:
+            keys.append("lat_window.large_radius" if radius >= 2.0e5 else "lat_window.small_radius")
+        else:
+            keys.append("lat_window.extremum_not_on_boundary")
+    if code in (2, 3):
+        pole_reach = maxabs + math.degrees(ang) >= 90
+        buf = 360.0 if pole_reach else math.degrees(math.asin(min(1.0, math.sin(ang) / math.cos(math.radians(maxabs)))))
+        w_leg, e_leg = min(lo[3]), max(lo[1])
+        no_dateline = min(lo[1]) > max(lo[3])
+        if no_dateline:
+            kept = w_leg - buf <= lon <= e_leg + buf
+        else:
+            kept = (w_leg - buf <= lon <= 180) or (-180 <= lon <= e_leg + buf)
+        if kept:
+            band = "low_lat" if maxabs < 45 else "mid_lat" if maxabs < 60 else "high_lat" if maxabs < 85 else "near_pole"
+            keys.append("lon_window." + band)
+        else:
+            cum = wrapped_deltas(lo)
+            west, east = lo[0][0] + min(cum), lo[0][0] + max(cum)
+            crosses = math.floor((west + 180) / 360) != math.floor((east + 180) / 360)
+            if no_dateline:
+                keys.append("side_assumption.extremes_not_on_side4_side2")
+            elif crosses:
+                keys.append("side_assumption.dateline_extremes")
+            else:
+                keys.append("side_assumption.dateline_branch_without_crossing")
+    return "+".join(keys) if keys else "not_rejected_by_model"
+
+
 def shard(l, n):
     return [l[i:i + n] for i in range(0, len(l), n)]
 
@@ -723,23 +790,31 @@ def analyse(ctx, cases, obs_list):
         if key in ("C03.reduce.neighbours", "C03.reduce.result"):
             f = facts_all[ci]
             r = reason_of.get(ci)
-            applies = obs_list[ci].get("red", {}).get("applies_to")
+            red = obs_list[ci].get("red", {})
+            applies = red.get("applies_to")
             lost = sorted(f["lost_src"] if applies == "source" else f["lost_tgt"])[:40]
-            comp = "unmodelled"
-            detail = ""
-            if r is not None and lost:
-                variant, code, codes = r
-                cs = sorted(set(codes))
-                comp = COMPONENT.get(cs[0], "?") if len(cs) == 1 else "lat_and_lon_window"
-                if code // 10 in (0, 1):
-                    comp = "lat_window.polar_class"
-                detail = " [%s skeleton: winding class %d, lon mode %d; lost %s index %s rejected by: %s]" % (
-                    variant, code // 10, code % 10, "source" if applies == "source" else "target", lost[:6],
-                    [COMPONENT.get(c, "?") for c in codes[:6]])
-            elif not lost:
-                comp = "no_lost_point"
-            key = "C03.H_red.%s.%s" % (comp, case["tag"])
-            what = what + detail
+            if r is None:
+                out.append((ci, "C03.H_red.unmodelled", what, extra))
+                continue
+            if not lost:
+                out.append((ci, "C03.H_red.no_lost_point", what, extra))
+                continue
+            variant, code, codes = r
+            ll_ = obs_list[ci]["src_lonlat"] if applies == "source" else obs_list[ci]["tgt_lonlat"]
+            plon, plat = dec(ll_[0], np.float64), dec(ll_[1], np.float64)
+            by_key = {}
+            for p, c in zip(lost, codes):
+                if variant == "legacy":
+                    comp = diagnose_snapshot(red, case["radius"], float(plon[p]), float(plat[p]), c)
+                else:
+                    comp = "repaired." + COMPONENT.get(c, "?")
+                by_key.setdefault(comp, []).append(p)
+            for comp, ps in sorted(by_key.items()):
+                p = ps[0]
+                detail = " [%s skeleton, winding class %d, lon mode %d: %d lost %s point(s) of this kind, e.g. index %d at (lon %.6f, lat %.6f)]" % (
+                    variant, code // 10, code % 10, len(ps), "source" if applies == "source" else "target", p, float(plon[p]), float(plat[p]))
+                out.append((ci, "C03.H_red." + comp, what + detail, extra))
+            continue
         out.append((ci, key, what, extra))
     return out, facts_all, variant_votes
 
